@@ -580,6 +580,19 @@ impl ActiveSegment
 		len <= self.remaining()
 	}
 	
+	/// Whether a statement at `addr` belongs to this segment: its bytes were written here before,
+	/// or it is the next one to be appended (which needs room, an address at the very end of a full
+	/// segment belongs to whatever follows it).
+	pub fn covers(&self, addr: u32) -> bool
+	{
+		if addr < self.base_addr {return false;}
+		match usize::try_from(addr - self.base_addr)
+		{
+			Ok(off) => off < self.buffer.len() || (off == self.buffer.len() && self.has_remaining(1)),
+			Err(..) => false,
+		}
+	}
+	
 	pub fn write(&mut self, data: &[u8]) -> Result<(), SegmentError>
 	{
 		if self.has_remaining(data.len())
